@@ -9,6 +9,7 @@ import (
 	"sort"
 	"strings"
 
+	"verifharness/internal/evid"
 	"verifharness/internal/ref"
 )
 
@@ -102,6 +103,7 @@ func primerDist(sd sideM, match string) int {
 func checkSample(sh Sheet, r outRec, row, status int, why string) error {
 	switch status {
 	case idUnjudged:
+		evid.Class("hamming_unequal_length_unjudged", 1)
 		return nil
 	case idNone:
 		if r.assigned() {
